@@ -142,6 +142,42 @@ pub fn probe(ctx: &Ctx, needle: &[u8], hay: &[u8], table: &[u8; 256], calls: &mu
     });
     chk!("memchr2_iter", memchr::memchr2_iter(n1, n2, hay).count());
     chk!("memchr3_iter + memrchr3_iter", memchr::memchr3_iter(n1, n2, n3, hay).count() + memchr::memrchr3_iter(n1, n2, n3, hay).count());
+    chk!("memrchr_iter + memrchr2_iter (next/next_back/size_hint)", {
+        let mut a = memchr::memrchr_iter(n1, hay);
+        let mut b = memchr::memrchr2_iter(n1, n2, hay);
+        (a.next(), a.next_back(), a.size_hint(), b.next(), b.count())
+    });
+    // the architecture-level byte searchers of this configuration (arch::all, sse2, avx2, neon, simd128);
+    // the searcher is boxed by the harness outside the armed region, its calls are armed
+    let mut out: Vec<i64> = Vec::with_capacity(64);
+    for imp in [mvcore::bytes::ALL, mvcore::bytes::SSE2, mvcore::bytes::AVX2, mvcore::bytes::NEON, mvcore::bytes::SIMD128] {
+        for arity in 1..=3usize {
+            let ns = [n1, n2, n3];
+            if let Some(b) = mvcore::bytes::make(imp, &ns[..arity]) {
+                chk!("arch-level byte searcher find / rfind / count", (b.find(hay), b.rfind(hay), b.count(hay)));
+                if mvcore::bytes::has_iter(imp) {
+                    out.clear();
+                    chk!("arch-level byte searcher iterator (next, next_back, count of a clone, size_hint)", b.iter_run(hay, &[mvcore::bytes::IT_NEXT, mvcore::bytes::IT_BACK, mvcore::bytes::IT_COUNT, mvcore::bytes::IT_HINT, mvcore::bytes::IT_NEXT], &mut out));
+                }
+            }
+        }
+    }
+    // the substring building blocks: construction and search
+    if !needle.is_empty() {
+        use memchr::arch::all::{packedpair, rabinkarp, twoway};
+        let tw = chk!("twoway::Finder::new", twoway::Finder::new(needle));
+        let twr = chk!("twoway::FinderRev::new", twoway::FinderRev::new(needle));
+        let rkf = chk!("rabinkarp::Finder::new", rabinkarp::Finder::new(needle));
+        let rkr = chk!("rabinkarp::FinderRev::new", rabinkarp::FinderRev::new(needle));
+        chk!("twoway::Finder::find", tw.find(hay, needle));
+        chk!("twoway::FinderRev::rfind", twr.rfind(hay, needle));
+        chk!("rabinkarp::Finder::find", rkf.find(hay, needle));
+        chk!("rabinkarp::FinderRev::rfind", rkr.rfind(hay, needle));
+        chk!("packedpair::Pair::new", packedpair::Pair::new(needle));
+        if let Some(pp) = chk!("all::packedpair::Finder::new", packedpair::Finder::new(needle)) {
+            chk!("all::packedpair::Finder::find_prefilter", pp.find_prefilter(hay));
+        }
+    }
     None
 }
 
